@@ -25,6 +25,16 @@ fn states(rng: &mut Rng, text: &str) -> Vec<(&'static str, Vec<String>)> {
         ("over", vec![format!("with_capacity 0 {}", text.len() + 1 + rng.below(40)), format!("push_str 0 {t}")]),
     ];
     v.push(("was-shared", vec![format!("from 0 {t}"), "clone 1 0".into(), "drop 1".into()]));
+    // the same text with *stale bytes behind its end* (what shrinking leaves in place): after the left shift of
+    // `remove(0)` the byte at `len` is the old last byte (a continuation byte when the text ends in a multi-byte
+    // character); after `clear` + `push_str` the bytes at and after `len` are the middle of old characters
+    v.push(("stale-shift", vec![format!("from 0 {}", h(&format!("a{text}"))), "remove 0 0".into()]));
+    let euros_inline = "€".repeat(5);
+    let euros_heap = "€".repeat(12 + text.len() / 3);
+    if text.len() <= 14 {
+        v.push(("stale-clear-inline", vec![format!("from 0 {}", h(&euros_inline)), "clear 0".into(), format!("push_str 0 {t}")]));
+    }
+    v.push(("stale-clear-heap", vec![format!("from 0 {}", h(&euros_heap)), "clear 0".into(), format!("push_str 0 {t}")]));
     v
 }
 
